@@ -78,6 +78,8 @@ class Ctx:
         p = subprocess.run(cmd, stdout=subprocess.PIPE, stderr=subprocess.STDOUT, text=True)
         if p.returncode != 0:
             raise Infra("harness build failed: %s\n%s" % (" ".join(cmd), p.stdout[-4000:]))
+        self.exe_src = getattr(self, "exe_src", {})
+        self.exe_src[out] = {"src": src, "variant": variant, "extra": list(extra)}
         return out
 
     def cfg(self, name, text):
@@ -331,6 +333,10 @@ class Ctx:
                 if os.path.exists(tr):
                     self.save_file(tr, "%s-%d.ndjson" % (label, hi))
                 self.save("%s-%d.why.txt" % (label, hi), why + "\n" + (se or "")[-3000:])
+                cfgp = cfg if os.path.isabs(cfg) else os.path.join(SPEC, cfg)
+                info = dict(getattr(self, "exe_src", {}).get(exe, {}), harness_args=list(harness_args), module=module,
+                            cfg_text=open(cfgp).read(), env=env or {}, property=self.pid)
+                self.save("%s-%d.sched.replay.json" % (label, hi), json.dumps(info, indent=1))
                 self.violation(why.split("\n")[0][:300], d)
         self.cov["traces_validated_against_impl"] += accepted_total[0]
         return accepted_total[0]
@@ -492,6 +498,8 @@ def main(checks):
     if a.pid not in checks:
         print("unknown property", a.pid, file=sys.stderr)
         return 2
+    if a.replay:
+        return replay(a.pid, a.replay)
     ctx = Ctx(a.pid, a.tier, a.seed)
     try:
         checks[a.pid](ctx)
@@ -499,3 +507,36 @@ def main(checks):
     except Infra as e:
         print("INFRA-ERROR property=%s: %s" % (a.pid, e), file=sys.stderr, flush=True)
         return 2
+
+
+def replay(pid, path):
+    """bin/check <ID> --replay <saved .sched>: rebuild the harness from /repo's working tree, run that one history, validate it."""
+    info_p = path + ".replay.json"
+    if not os.path.exists(info_p):
+        print("no replay information next to %s" % path)
+        return 2
+    info = json.load(open(info_p))
+    os.environ["VERIF_WORKTAG"] = os.environ.get("VERIF_WORKTAG", "") + "replay%d" % os.getpid()
+    ctx = Ctx(pid, "quick", 1)
+    try:
+        exe = ctx.cc(info["src"], info.get("variant", "asan"), extra=info.get("extra", ()))
+        cfg = ctx.cfg("replay.cfg", info["cfg_text"])
+        tr = os.path.join(ctx.work, "replay.ndjson")
+        rc, so, se = ctx.run([exe, path, tr] + info.get("harness_args", []), timeout=300, env=info.get("env") or None)
+        print(open(path).read())
+        if os.path.exists(tr):
+            print("--- recorded events")
+            print(open(tr).read())
+        if rc != 0:
+            print("--- harness exit %d\n%s" % (rc, (se or so)[-3000:]))
+            print("VIOLATION property=%s replay=%s" % (pid, path))
+            return 1
+        v = ctx.validate(info["module"], cfg, tr)
+        if v.accepted:
+            print("--- accepted by %s" % info["module"])
+            return 0
+        print("--- rejected at event %d (%s)" % (v.matched + 1, v.violated or "no enabled spec action matches"))
+        print("VIOLATION property=%s replay=%s" % (pid, path))
+        return 1
+    finally:
+        shutil.rmtree(ctx.work, ignore_errors=True)
